@@ -208,6 +208,10 @@ class SymEval:
                     return self._simp(pa - pb)
                 if isinstance(n.op, ast.Mult):
                     return self._simp(pa * pb)
+                if isinstance(n.op, ast.Div):
+                    if pb.is_const() and pb.const_value() != 0:
+                        return self._simp(pa.div_const(pb.const_value()))
+                    return UNK
                 if isinstance(n.op, ast.FloorDiv):
                     if pb.is_const() and pb.const_value() > 0 and pb.const_value().denominator == 1:
                         m = int(pb.const_value())
